@@ -95,18 +95,23 @@ class Holder:
         and when FALSE (second list)."""
         a = a.strip()
         T, F = [], []
-        if a.kind == "DeclRefExpr" and a.get("local") and a.get("dk") == "Var":
-            # a bool local that snapshots a flag test (`const bool o = static_cast<bool>(other)`): valid as long as
+        if a.kind == "DeclRefExpr" and a.get("local") and (a.get("dk") == "Var" or a.d.get("d") in fn.bind_map()):
+            # a bool local that snapshots a flag test (`const bool o = static_cast<bool>(other)`), or a by-value bool
+            # parameter of a virtually inlined helper (`_assign_with(other._non_null, ...)`): valid as long as
             # nothing between the snapshot and the test can change the flag it was taken from
             did = a.d["d"]
-            init = RA.local_inits(fn).get(did)
+            if did in fn.bind_map():
+                init = fn.node(fn.bind_map()[did])
+            else:
+                init = RA.local_inits(fn).get(did)
             if init is None or RA._reassigned(fn, did):
                 return None
             at = self.atom(fn, init, ctor_alias)
             if at is None:
                 return None
             if any(who in ("this", "rel") for who, _ in at[0] + at[1]):
-                decl = [n for n in fn.events() if n.kind == "DeclStmt" and any(d.get("d") == did for d in n.get("decls", []))]
+                decl = [n for n in fn.events() if (n.kind == "DeclStmt" and any(d.get("d") == did for d in n.get("decls", [])))
+                        or (n.kind == "ParamBind" and n.d.get("d") == did)]
                 if not decl:
                     return None
                 for e in fn.events():
